@@ -6,6 +6,7 @@ from .core import hexs
 THEOREMS = ["C03_inject_sem", "C03_inject_search", "C03_to_str_total", "C03_vm_split_independent"]
 BASES = ["(a|ab)(c|bcd)(d*)", "(?:(a)|b)*", "(a)\\1", "(?<=a)b", "a+?b", "(?>a|ab)c", "(?=(a|ab))\\1c", "(|a)*", "(?:a|b)*c", "x*", "(a)|b", "\\ba", "(?:ab|a)b", "(?:(a)|b){2}", "(a*)*b", "(?<!a)b|c", "^a$", "[ab]+c", "a{1,2}?b", "(a){0,2}?$", "(?:a|b){1,2}?c", "a{2,3}?b", "a{1}?b", "(a+){1}?b",
          # case-insensitive non-ASCII literals
+         "(?:a{2})?b", "(?:a{2})??", "(?:a{2})??a", "(b)|(?:a{2})?", "(?:a{1,2})?b", "(?:a+)??b", "a(?:b|$)", "(a|\\z)b?", "a$", "(?m)a(?:b|$)",
          "(?i)é*x", "(?i)(?:é|bb)", "(é)(?i)é?", "(?i)\\x{e9}+?", "(?i)é+É"]
 
 
@@ -73,7 +74,7 @@ def run(tier, seed, replay=None):
     pats = sorted(set([p for p, _ in pairs] + [q for _, q in pairs]))
     infos = engine.prog_info(pats)
     byp = {i["pattern"]: i for i in infos}
-    texts = gen.texts(2) + ["aab", "abab", "abc", "abcd", "abcdd", "aaa", "ab", "bab", "éa-", "cab", "aaab", "aaaab", "abbc", "b", "bc", "Éx", "É", "éÉ", "ÉÉx"]
+    texts = gen.texts(2) + ["aab", "abab", "abc", "abcd", "abcdd", "aaa", "ab", "bab", "éa-", "cab", "aaab", "aaaab", "abbc", "b", "bc", "Éx", "É", "éÉ", "ÉÉx", "a\nb", "c\n", "a\n"]
     if tier == "thorough":
         texts = gen.texts(3) + texts
     t2bad = [i for i in infos if i["t2_ok"] is False]
